@@ -21,5 +21,4 @@ NOT_APPLICABLE = {
     'C14': 'every mechanism is out of reach: Env is Vec<BTreeMap<String,T>> (no vstd spec; Kani > 7 min for 4 operations), mux_envs '
            'iterates BTreeMaps, assignment/scoping/branch merging are arms of compile.',
  'C08': UNDER_CONSTRUCTION,
-    'C10': UNDER_CONSTRUCTION,
 }
